@@ -110,8 +110,8 @@ class Loop(Edit):
     """loop contract: `header` is the loop header text (up to, not including, its `{`).
     inv is spliced between header and `{`; step (ghost) is spliced at the end of the body and
     before every `continue` that belongs to this loop."""
-    def __init__(self, header, inv, step=None):
-        self.header, self.inv, self.step = header, inv, step
+    def __init__(self, header, inv, step=None, enter=None):
+        self.header, self.inv, self.step, self.enter = header, inv, step, enter   # enter: ghost text placed at the start of the body
     def apply(self, text, ctx):
         n = text.count(self.header)
         if n != 1:
@@ -129,6 +129,8 @@ class Loop(Edit):
         cb = src.match[ob]
         o_pos, c_pos = src.toks[ob][1], src.toks[cb][1]
         inserts = [(o_pos, "\n" + self.inv + "\n")]
+        if self.enter:
+            inserts.append((o_pos + 1, "\n" + self.enter + "\n"))
         if self.step:
             # a loop body's tail expression has type (): terminate it so the ghost step can follow
             prev = max((k for k in src.code if src.toks[k][1] < c_pos), default=None)
